@@ -111,7 +111,8 @@ func ParsePatterns(docs ...*ast.CommentGroup) (patterns []string, hasDirective b
 			if c == nil {
 				continue
 			}
-			line := strings.TrimSpace(strings.TrimPrefix(c.Text, "//"))
+			// A directive starts right after the slashes: "// go:embed x" is a plain comment.
+			line := strings.TrimPrefix(c.Text, "//")
 			args, ok := ParseDirective(line)
 			if !ok {
 				continue
